@@ -392,7 +392,7 @@ pub fn run(args: &[String]) -> ! {
                effect register none; a (bridge, event id) pair is honoured at most once. \
                Non-trivial: >= 1 deposit and >= 1 attempt to reuse an honoured event id through a \
                different action type",
-        cases_quick: 700,
+        cases_quick: 1400,
         cases_thorough: 25_000,
         shards: 12,
         min_nontrivial: 0.03,
